@@ -192,7 +192,10 @@ def render_structs(k, it: Item, meta, cfg, strum_path="strum"):
             }''' % {"b": base, "show": show, "show_ref": show_ref, "show_mut": show_mut, "mutw": mutw})
         arms["tryas"] = '''
             let j: usize = args[0].parse().unwrap();
-            let parts: Vec<String> = vec![%s];
+            let jm: usize = args[2].parse().unwrap();
+            let mut parts: Vec<String> = vec![format!("self={}", vobs(&val(j))), format!("mut={}", vobs(&val(jm)))];
+            let more: Vec<String> = vec![%s];
+            parts.extend(more);
             format!("[{}]", parts.join(";"))
         ''' % ", ".join(parts)
     if "EnumMessage" in derives:
